@@ -3,13 +3,16 @@ from checks import rapid, plain, fuzz, REPLAY
 CHECK = dict(
         pkg="c15", level="exploration",
         rule="strings drawn 40/40/20 from (i) the reference grammar component-wise, (ii) single grammar-leaving mutations of (i), "
-             "(iii) arbitrary bytes; oracle = hand-written recogniser (accept/reject + all fields), CommonName round-trip, "
+             "(iii) arbitrary bytes - mutations include outer whitespace / CR LF / tab padding; the same strings also go through `regctl ref <s> --format <fields>` and `regctl ref <s>` (CLI engine); oracle = hand-written recogniser (accept/reject + all fields), CommonName round-trip, "
              "SetTag/SetDigest/AddDigest frame conditions, NewHost vs registry sub-grammar. Non-trivial = accepted with >=3 "
              "components present, or a mutation the model places outside the grammar; distinct by input string.",
         jobs=[REPLAY,
               rapid("prop", "TestVerifProp", 80_000, 6_000_000),
+              # CLI engine: `regctl ref` (cmd/regctl/ref.go is an anchor file) on the same generated strings
+              plain("clireplay", "TestVerifCLIReplayDir", pkgdir="cmd/regctl", tags="verif,c15"),
+              rapid("cli", "TestVerifCLI", 24_000, 600_000, pkgdir="cmd/regctl", tags="verif,c15"),
               fuzz("fuzz", "FuzzVerifRef", 120)],
-        technique="property-based testing (rapid) with grammar + mutation generators against a hand-written reference recogniser; round-trip and frame-condition oracles; native go fuzz in thorough",
+        technique="property-based testing (rapid) with grammar + mutation generators against a hand-written reference recogniser, for the library (ref.New/NewHost/setters) and for the `regctl ref` command run through its cobra root; round-trip and frame-condition oracles; native go fuzz in thorough",
         level_text="Generated-input search: every accepted/rejected decision and every parsed field of ref.New/NewHost is compared with an independent scanner for the grammar, and every accepted reference (and every SetTag/SetDigest/AddDigest result) must re-parse from CommonName to the same components. Exploration, not proof: 8e4 (quick) to 6e6 (thorough) strings plus coverage-guided fuzzing.",
         level_note="Trusted: the hand-written recogniser (harness/c15/recog.go) as the statement of the grammar; rapid's generators. Not covered: strings longer than ~300 bytes except the 128/129-char tag boundary.",
         assumptions=["the reference grammar is the one documented by types/ref (Docker reference grammar plus regclient's "
